@@ -24,6 +24,9 @@ type SMDoc struct {
 	Files     []string
 	RootFile  string
 	NodeFiles map[string]string
+	// NoFileInformation: the document carries lexical entries but no BaseUnitSourceInformation: the uri of a
+	// location is then not specified by anything (ranges and presence still are)
+	NoFileInformation bool
 }
 
 var smMagnitudes = []string{"0", "1", "9", "10", "007", "00", "0010", "99", "100", "340", "2147483648", "4294967297", "9007199254740993", "123456789012345678901234567890"}
@@ -100,7 +103,22 @@ func DecorateWithSourceMaps(g *Graph, r *rand.Rand) *SMDoc {
 		}
 		arr = append(arr, o)
 	}
-	// source information (always present when the data carries source maps)
+	if r.Intn(6) == 0 {
+		d.NoFileInformation = true
+		arr = append(arr, extra...)
+		var kept []any
+		for _, x := range arr {
+			if m, ok := x.(map[string]any); ok {
+				if ts, ok := m["@type"].([]any); ok && len(ts) == 1 && (ts[0] == nsDoc+"LocationInformation") {
+					continue
+				}
+			}
+			kept = append(kept, x)
+		}
+		d.Text = MustJSON(kept)
+		return d
+	}
+	// source information
 	si := map[string]any{"@id": EX + "unit#/source-information", "@type": []any{nsDoc + "BaseUnitSourceInformation"},
 		nsDoc + "rootLocation": []any{map[string]any{"@value": d.RootFile}}}
 	var locs []any
@@ -124,4 +142,35 @@ func DecorateWithSourceMaps(g *Graph, r *rand.Rand) *SMDoc {
 	arr = append(arr, extra...)
 	d.Text = MustJSON(arr)
 	return d
+}
+
+// StripSourceInformation removes the BaseUnitSourceInformation / LocationInformation nodes of a document rendered
+// by DecorateWithSourceMaps (lexical entries stay): data with source maps but without file information.
+func StripSourceInformation(text string) string {
+	v, ok := ReadableJSON(text)
+	if !ok {
+		return text
+	}
+	arr, ok := v.([]any)
+	if !ok {
+		return text
+	}
+	var out []any
+	for _, n := range arr {
+		if m, ok := n.(map[string]any); ok {
+			drop := false
+			if ts, ok := m["@type"].([]any); ok {
+				for _, t := range ts {
+					if t == nsDoc+"BaseUnitSourceInformation" || t == nsDoc+"LocationInformation" {
+						drop = true
+					}
+				}
+			}
+			if drop {
+				continue
+			}
+		}
+		out = append(out, n)
+	}
+	return MustJSON(out)
 }
